@@ -361,6 +361,24 @@ def run(index, rep, tier):
                           "%s sorts `%s` into `%s` and then reads `%s`: a position in the unsorted sample is whatever tree happened to arrive at that place, so the statistic (the median edge length or node age a summary tree is given) changes with the order and partitioning of the input although the multiset of values is the same" % (f.qualname, src, dst, norm(bad[0])[:40] if bad else ""))
         rep.floor("R05.11", "sorted copies of a sample parameter in the statistics module", 1, nsort)
 
+    # ---------------- R05.12
+    with rep.section("R05.12"):
+        rep.rule("R05.12", "a standard deviation is a real number: in the statistics and summarisation modules a square root is taken with math.sqrt (ValueError on a negative argument, which the callers handle) or of a value clamped at 0 - never by `** 0.5`, which turns the slightly negative variance that the one-pass formula gives for identical values into a complex number")
+        nroot = 0
+        for m in ("dendropy.calculate.statistics", "dendropy.datamodel.treecollectionmodel", "dendropy.calculate.treesum"):
+            for f in index.functions_in_module(m):
+                for x in walk_no_nested(f.node):
+                    if isinstance(x, ast.Call) and norm(x.func) in ("math.sqrt", "sqrt"):
+                        nroot += 1
+                        rep.ob("R05.12", fn_where(f, x), "%s: `%s` raises ValueError for a negative argument" % (f.qualname, norm(x)[:40]), True)
+                    if isinstance(x, ast.BinOp) and isinstance(x.op, ast.Pow) and ((isinstance(x.right, ast.Constant) and x.right.value == 0.5) or norm(x.right) in ("1 / 2", "1.0 / 2", "1 / 2.0")):
+                        nroot += 1
+                        b = x.left
+                        clamped = isinstance(b, ast.Call) and ((isinstance(b.func, ast.Name) and b.func.id == "abs") or (isinstance(b.func, ast.Name) and b.func.id == "max" and any(isinstance(a, ast.Constant) and a.value in (0, 0.0) for a in b.args)))
+                        rep.check(clamped, "R05.12", f.qualname, "square root by `** 0.5` of an unclamped value", fn_where(f, x), "%s: the base of `%s` is clamped at 0" % (f.qualname, norm(x)[:40]),
+                                  "%s takes `%s`: for a negative base Python returns a COMPLEX number instead of raising, and the one-pass variance (ss - mean*s)/n is slightly negative for samples of identical values (0.1, 0.1, 0.1) - the `except ValueError` meant for that case never fires, so the sd of a split whose length is the same in all trees comes out as (8e-26+1.3e-09j)" % (f.qualname, norm(x)[:50]))
+        rep.floor("R05.12", "square roots in the summary statistics", 1, nroot)
+
     # ---------------- R05.10
     with rep.section("R05.10"):
         rep.rule("R05.10", "summaries fail independently: in statistics.summarize each try-block computes one statistic (one statistics function per block), so a sample too small for the quantiles cannot blank the median; percent scaling of support values is applied once (a value already multiplied by 100 is not handed to the label composer, which scales itself)")
